@@ -147,3 +147,71 @@ def snapshot(doc):
             return [snap(x) for x in o]
         return o if isinstance(o, (str, int, float, bool, type(None))) else type(o).__name__
     return snap(doc)
+
+
+# ---------------------------------------------------------------------------------------------------------
+# C15: another thread as a nondeterministic environment acting through the colour API at a chosen call boundary
+# ---------------------------------------------------------------------------------------------------------
+import threading  # noqa: E402
+from rtflite.services.color_service import ColorService  # noqa: E402
+
+API_POINTS = ["get_rtf_color_index", "set_document_context", "clear_document_context", "collect_document_colors",
+              "generate_rtf_color_table"]
+
+
+def in_other_thread(fn):
+    """run fn to completion on a REAL second thread (one atomic step of thread B between two steps of thread A)"""
+    err = []
+
+    def target():
+        try:
+            fn()
+        except Exception as e:  # noqa: BLE001
+            err.append(e)
+    t = threading.Thread(target=target)
+    t.start()
+    t.join()
+    if err:
+        raise err[0]
+
+
+def run_interleaved(path, used, where, schedule):
+    """encode document A (palette `used`) while thread B acts at chosen call boundaries.
+    schedule: list of (k, op) - before A's k-th call into the colour API, B performs op() on its own thread."""
+    counter = {"n": 0}
+    me = threading.get_ident()
+    saved = {name: getattr(ColorService, name) for name in API_POINTS}
+
+    def wrap(name):
+        orig = saved[name]
+
+        def hooked(self, *a, **kw):
+            if threading.get_ident() == me:
+                k = counter["n"]
+                counter["n"] += 1
+                for kk, op in schedule:
+                    if kk == k:
+                        in_other_thread(op)
+            return orig(self, *a, **kw)
+        return hooked
+
+    for name in API_POINTS:
+        setattr(ColorService, name, wrap(name))
+    try:
+        res = run_encode(path, used, where)
+    finally:
+        for name, fn in saved.items():
+            setattr(ColorService, name, fn)
+    return res, counter["n"]
+
+
+def b_op(kind, palette):
+    """what thread B's own encode does to the colour API, seen from A at a preemption: B has started (context set),
+    or B has started and finished (context set, then cleared)"""
+    def started():
+        svc.set_document_context(used_colors=list(palette))
+
+    def finished():
+        svc.set_document_context(used_colors=list(palette))
+        svc.clear_document_context()
+    return started if kind == 0 else finished
